@@ -59,10 +59,49 @@ def gen_cases(seed, tier):
     import docgen
     for s in docgen.exhaustive(docgen.SYM_COMMASEP, 3 if tier == 'quick' else 4):
         cases.append(PC.mk_case('commasep', s, True, 'commasep'))
+    # the other standard parsers through LatexWalker.parse_content() as documented (the walker makes the token
+    # reader itself), tolerant mode: real code only
+    for pname in sorted(API_PARSERS):
+        for s in docgen.exhaustive(['}', '{', '$', '\\)', '\\(', 'a', ' ', '\\textbf', '[', ']', '\\]', '%c\n'], 2):
+            cases.append({'wire': [999], 'nt': True,
+                          'desc': {'ctx': 'default', 's': s, 'tolerant': True, 'origin': 'parser-api', 'parser': pname}})
     return cases
 
 
+def _mk_parsers():
+    from pylatexenc.latexnodes import parsers as P
+    return {
+        'expression': lambda: P.LatexExpressionParser(),
+        'expression-full': lambda: P.LatexExpressionParser(return_full_node_list=True),
+        'group': lambda: P.LatexDelimitedGroupParser(delimiters=('{', '}')),
+        'group-optional': lambda: P.LatexDelimitedGroupParser(delimiters=('[', ']'), optional=True),
+        'math': lambda: P.LatexMathParser(math_mode_delimiters=('$', '$')),
+        'star': lambda: P.LatexOptionalCharsMarkerParser('*'),
+        'stdarg-m': lambda: P.LatexStandardArgumentParser('{'),
+        'stdarg-o': lambda: P.LatexStandardArgumentParser('['),
+        'single-node': lambda: P.LatexSingleNodeParser(),
+    }
+
+
+API_PARSERS = ['expression', 'expression-full', 'group', 'group-optional', 'math', 'star', 'stdarg-m', 'stdarg-o', 'single-node']
+
+
+def _oracle_api(d):
+    from pylatexenc.latexwalker import LatexWalker
+    from pylatexenc.latexnodes import LatexWalkerError
+    w = LatexWalker(d['s'], tolerant_parsing=True)
+    try:
+        w.parse_content(_mk_parsers()[d['parser']]())
+    except LatexWalkerError:
+        return None                 # a parse error / end of stream reported to the caller of a sub-parser
+    except Exception as e:
+        return ('tolerant-raised-%s' % type(e).__name__, {'parser': d['parser'], 'message': str(e)[:200]})
+    return None
+
+
 def impl(c):
+    if c['desc'].get('origin') == 'parser-api':
+        return 'BADIN'
     return PC.proj_spans(PC.impl_parse(c))
 
 
@@ -72,6 +111,8 @@ def same(m, i, c):
 
 def oracle(c):
     d = c['desc']
+    if d.get('origin') == 'parser-api':
+        return _oracle_api(d)
     if not d['tolerant']:
         return None
     s = d['s']
